@@ -37,7 +37,8 @@ type Outcome struct {
 	Extra     string `json:"extra,omitempty"` // DecodePatch / Accessors: operations and accessor results
 	Steps     int64  `json:"steps,omitempty"`
 
-	patch any // DecodePatch: the decoded patch (not part of the comparison)
+	patch any    // DecodePatch: the decoded patch (not part of the comparison)
+	ret   []byte // the slice the library returned, kept to see whether a later call clobbers it
 }
 
 func (o *Outcome) Failed() bool { return o.Status != StOK }
